@@ -375,6 +375,34 @@ def vbint.fill (v : Nat) : Filler := fun b i => vbint.fillAux v v b i
 	}
 	fmt.Fprintf(&sb, "def UserProp.fill (v : Bytes × Bytes) : Filler := %s\n\n", pairFill)
 
+	// ---- UserProp.fillProp and UserProperties.properties (the user properties of every packet type)
+	upZero := "false"
+	if fd := funcs["UserProp.fillProp"]; fd != nil {
+		if m := reFillProp.FindStringSubmatch(wireBody(fd)); m != nil && m[1] == "len(v[0]) == 0" {
+			upZero = "v.1.isEmpty"
+		} else {
+			bad = append(bad, "UserProp.fillProp: "+wireBody(fd))
+		}
+	} else {
+		bad = append(bad, "UserProp.fillProp")
+	}
+	fmt.Fprintf(&sb, "/-- `UserProp.fillProp`: nothing for an empty key, else identifier and pair -/\ndef UserProp.fillProp (id : UInt8) (v : Bytes × Bytes) : Filler := fun b i =>\n  if %s then (b, 0) else Filler.seq (Mq.Gen.Ident.fill id) (Mq.Gen.UserProp.fill v) b i\n\n", upZero)
+	upsDef := "Filler.unknown \"UserProperties.properties\""
+	if fd := funcs["UserProperties.properties"]; fd != nil {
+		b := wireBody(fd)
+		if m := regexp.MustCompile(`^n := i ; for _, (\w+) := range \*v \{ i \+= (\w+)\.fillProp\(data, i, (\w+)\) \} ; return i - n$`).FindStringSubmatch(b); m != nil && m[1] == m[2] {
+			if c, ok := identConst(m[3]); ok {
+				upsDef = fmt.Sprintf("Filler.seqs (ups.map fun kv => Mq.Gen.UserProp.fillProp %d kv)", c)
+			}
+		}
+		if strings.HasPrefix(upsDef, "Filler.unknown") {
+			bad = append(bad, "UserProperties.properties: "+b)
+		}
+	} else {
+		bad = append(bad, "UserProperties.properties")
+	}
+	fmt.Fprintf(&sb, "/-- `UserProperties.properties(b, i)`: every pair in order, each through `fillProp` -/\ndef UserProperties.properties (ups : List (Bytes × Bytes)) : Filler := %s\n\n", upsDef)
+
 	sort.Strings(bad)
 	fmt.Fprintf(&sb, "def untranslatedWire : List String := [%s]\n\n", quoteAll(wireSub(bad, "fixed")))
 	fmt.Fprintf(&sb, "def untranslatedWireVar : List String := [%s]\n\n", quoteAll(wireSub(bad, "var")))
